@@ -182,3 +182,25 @@ package reporter
 //@   ensures result == 0 ==> a.Problem.Severity == b.Problem.Severity
 //@   ensures result == 0 ==> a.Problem.Reporter == b.Problem.Reporter
 //@   ensures result == 0 ==> a.Problem.Summary == b.Problem.Summary
+
+// C17 (every reported problem is covered by a comment carrying its text): grouping the reports into pending comments
+// only ever drops a report when a report with the same summary AND the same details is already in its group.
+//@ spec func carried(dst [][]Report, r Report) bool = exists i, j int :: 0 <= i && i < len(dst) && 0 <= j && j < len(dst[i]) &&
+//@      dst[i][j].Problem.Summary == r.Problem.Summary && dst[i][j].Problem.Details == r.Problem.Details &&
+//@      dst[i][j].Problem.Reporter == r.Problem.Reporter && dst[i][j].Problem.Lines.First == r.Problem.Lines.First && dst[i][j].Problem.Lines.Last == r.Problem.Lines.Last
+//@ func dedupReports [C17]
+//@   option elemlinks
+//@   ensures forall k int :: 0 <= k && k < len(src) && (showDuplicates || !src[k].IsDuplicate) ==> carried(dst, src[k])
+//@   loop 1 invariant 0 <= iter1 && iter1 <= len(src) && modifiesNone(src)
+//@   loop 1 invariant forall i int :: 0 <= i && i < len(dst) ==> len(dst[i]) >= 1
+//@   loop 1 invariant forall i int :: 0 <= i && i < len(dst) ==> !sameArray(dst[i], src)
+//@   loop 1 invariant forall i int :: 0 <= i && i < len(dst) ==> fresh(dst[i])
+//@   loop 1 invariant forall i, j int :: 0 <= i && i < j && j < len(dst) ==> !sameArray(dst[i], dst[j])
+//@   loop 1 invariant forall k int :: 0 <= k && k < iter1 && (showDuplicates || !src[k].IsDuplicate) ==> carried(dst, src[k])
+//@   loop 2 invariant 0 <= iter2 && iter2 <= len(dst) && 1 <= iter1 && iter1 <= len(src) && modifiesNone(src) && report == src[iter1-1]
+//@   loop 2 invariant forall i int :: 0 <= i && i < len(dst) ==> len(dst[i]) >= 1
+//@   loop 2 invariant forall i int :: 0 <= i && i < len(dst) ==> !sameArray(dst[i], src)
+//@   loop 2 invariant forall i int :: 0 <= i && i < len(dst) ==> fresh(dst[i])
+//@   loop 2 invariant forall i, j int :: 0 <= i && i < j && j < len(dst) ==> !sameArray(dst[i], dst[j])
+//@   loop 2 invariant forall k int :: 0 <= k && k < iter1 - 1 && (showDuplicates || !src[k].IsDuplicate) ==> carried(dst, src[k])
+//@   loop 2 invariant index == -1
